@@ -137,3 +137,21 @@ pub proof fn lemma_borrow_step{X}(a: int, b: int, s: int, c0: int, c1: int, x: i
     assert((r - c1 * bb) * p == r * p - (c1 * bb) * p) by(nonlinear_arith);
     assert((x - y - c0) * p == x * p - y * p - c0 * p) by(nonlinear_arith);
 }
+/// carry chain step over int (same statement as lemma_carry_step)
+pub proof fn lemma_addc_step{X}(a: int, b: int, s: int, c0: int, c1: int, x: int, y: int, r: int, k: nat)
+    requires
+        s + c0 * pow2({I.bits} * k) == a + b,
+        r + c1 * {I.pow} == x + y + c0,
+    ensures
+        (s + r * pow2({I.bits} * k)) + c1 * pow2({I.bits} * (k + 1)) == (a + x * pow2({I.bits} * k)) + (b + y * pow2({I.bits} * k)),
+{
+    lemma_pow2_wb{X}();
+    lemma_pow2_adds({I.bits} * k, {I.bits});
+    let p = pow2({I.bits} * k) as int;
+    let bb: int = {I.pow};
+    assert({I.bits} * (k + 1) == {I.bits} * k + {I.bits});
+    assert(pow2({I.bits} * (k + 1)) as int == p * bb);
+    assert(c1 * (p * bb) == (c1 * bb) * p) by(nonlinear_arith);
+    assert((r + c1 * bb) * p == r * p + (c1 * bb) * p) by(nonlinear_arith);
+    assert((x + y + c0) * p == x * p + y * p + c0 * p) by(nonlinear_arith);
+}
